@@ -1,6 +1,7 @@
 import PkVerif.Drv.Common
 import PkVerif.Model.Stores
 import PkVerif.Model.Files
+import PkVerif.Model.DiskPacked
 import PkVerif.Model.Ref
 import PkVerif.Gen.Facts
 /-! `pkmodel-c01`: storage configurations behind a line protocol.
@@ -27,6 +28,7 @@ def isSchema (v : Bytes) : Bool :=
 partial def parseCfg : List String → Option (Cfg × List String)
   | "mem" :: r => some (.mem, r)
   | "files" :: r => some (.leaf (Pk.Files.filesImpl tbl), r)
+  | "diskpacked" :: n :: r => n.toNat?.map (fun m => (.leaf (Pk.DiskPacked.diskpackedImpl m), r))
   | "memcache" :: n :: r => n.toNat?.map (fun m => (.memCache m, r))
   | "ns" :: r => (parseCfg r).map (fun (c, r') => (.ns c, r'))
   | "proxy" :: n :: r =>
